@@ -100,15 +100,17 @@ def _pure_pattern(purity, pat, depth=0):
     return r
 
 
-def _lname(fn, nid):
-    """name of the local storage an lvalue expression denotes: a local / parameter, or one plain member of it ('info.next')"""
+def _lname(fn, nid, depth=0):
+    """name of the local storage an lvalue expression denotes: a local / parameter, or a plain member path of it ('info.next', 'pos.info.cur')"""
     n = fn.nodes[nid]
     if n["k"] == "ref" and n.get("dk") in ("local", "param"):
         return n["name"]
-    if n["k"] == "member" and not n.get("t", "").startswith("std::atomic"):
+    if n["k"] == "member" and not n.get("t", "").startswith("std::atomic") and depth < 4:
         k = fn.kids(nid)
-        if k and fn.nodes[k[0]]["k"] == "ref" and fn.nodes[k[0]].get("dk") in ("local", "param"):
-            return fn.nodes[k[0]]["name"] + "." + str(n.get("leaf"))
+        if k and not n.get("arrow"):
+            base = _lname(fn, k[0], depth + 1)
+            if base:
+                return base + "." + str(n.get("leaf"))
     return None
 
 
